@@ -1,6 +1,6 @@
 ----------------------------- MODULE MC_TpePols -----------------------------
 (* Strictly valid policy sets over Sc2 shared by the TPE, batched and slicing generators. *)
-EXTENDS PolicyPool
+EXTENDS PolicyPool, Json, IOUtils
 
 WhenP(s, e) == Pol(s, <<<<"when", e>>>>)
 \* strictly valid policies (checked against the real validator each run: an invalid one is a harness error)
@@ -27,8 +27,13 @@ TP == <<
 >>
 NTP == Len(TP)
 WithId(p, id, eff) == [p EXCEPT !.id = id, !.effect = eff]
-PolSets == {<<WithId(TP[i], "p1", TP[i].effect)>> : i \in 1..NTP}
+\* with RANDPOLS=<file> in the environment the sets are read from that file instead: ndjson lines {"pols": [...]} of
+\* strictly valid random policies produced by the harness generator gen_typed.rs (the wire form IS the abstract form)
+RandSets(dummy) == LET recs == ndJsonDeserialize(IOEnv.RANDPOLS) IN {recs[i].pols : i \in 1..Len(recs)}
+BuiltinSets(dummy) == {<<WithId(TP[i], "p1", TP[i].effect)>> : i \in 1..NTP}
            \cup {<<WithId(TP[i], "p1", "permit"), WithId(TP[j], "p2", "forbid")>> : i \in 1..NTP, j \in {1, 4, 6, 14, 20, 21}}
            \cup {<<WithId(TP[i], "p1", "permit"), WithId(TP[20], "p2", "permit"), WithId(TP[j], "p3", "forbid")>> : i \in {2, 8, 16}, j \in {3, 7, 17}}
+SetHash(x) == IF x[1].conds = <<>> THEN Len(x) ELSE Len(x) + Len(x[1].conds[1][2])
+PolSets == IF "RANDPOLS" \in DOMAIN IOEnv THEN RandSets(0) ELSE BuiltinSets(0)
 
 ==============================================================================
